@@ -192,6 +192,11 @@ class KeyedList(Generic[ItemType, KeyType], MutableSequence, KeyedBase):  # pyli
         self._list.insert(index, item)
         self._dict[key] = item
 
+    def reverse(self):
+        # The mixin implementation swaps items pairwise through `__setitem__`,
+        # which transiently duplicates keys; reversing cannot change the keys.
+        self._list.reverse()
+
     def __contains__(self, value):
         try:
             if value in self._dict:
